@@ -294,6 +294,14 @@ class HistoryModel:
         key = (c, i, 0)
         if k == "build":
             self._register(op.get("env", "E"), op["dags"], op.get("flip_async", False))
+            # a DAG described after one of its inner DAGs was set up inherits those setup results (they are spliced in)
+            env = op.get("env", "E")
+            for dn in op["dags"]:
+                st = self.inst[f"{env}:{dn}"]
+                for idx, s_ in enumerate(self.spec["dags"][dn]["stmts"]):
+                    if s_["k"] == "dag" and f"{env}:{s_['dag']}" in self.inst:
+                        for p_in, val in self.inst[f"{env}:{s_['dag']}"].setup_memo.items():
+                            st.setup_memo[((dn, idx),) + tuple(p_in)] = val
             ex = Expect("raises" if any(v == "raise" for ps in (op.get("pauses") or {}).values() for v in ps.values()) else "none")
             ex.raises = ("InjectedError",)
             if op.get("expect_raise"):
